@@ -209,7 +209,10 @@ def check_rect(c):
         res.skip('rank-deficient catalogue matrix')
         return res
     top = n - r + 1
-    drs = [(a, b) for a in range(-1, top + 1) for b in list(range(0, top + 1)) + [None]]
+    if c.get('big'):
+        drs = [(0, None), (0, 0), (1, 3), (3, 3), (0, 7), (top - 1, top - 1), (top, top), (-1, 2), (2, 1)]
+    else:
+        drs = [(a, b) for a in range(-1, top + 1) for b in list(range(0, top + 1)) + [None]]
     for e in c['es']:
         for (dmin, dmax) in drs:
             case = dict(c, e=e, dr_min=dmin, dr_max=dmax)
@@ -293,6 +296,9 @@ def _cases(tier, seed):
                 for tag in (tagsv if kind not in ('int',) else [0]):
                     out.append(dict(r=r, n=n, kind=kind, es=es, seed=seed, tag=tag,
                                     brute=(tier != 'quick')))
+    for (n, r) in ((200, 5), (64, 8), (33, 2), (1000, 3)):
+        for kind in ('gen', 'grad8', 'duprow', 'zerorow'):
+            out.append(dict(r=r, n=n, kind=kind, es=[1.01, 1.5], seed=seed, tag=0, brute=False, big=True))
     return out
 
 
